@@ -54,6 +54,15 @@ def run(prop, tier):
         sig = "%s %s [%s %s]" % (prop, "+".join(clauses), kind, describe(o))
         rep.violation(sig, {"failing_clauses": clauses, "schedule": scheds[f["line"] - 1] if f["line"] <= len(scheds) else "random (seeded)",
                             "observed": o, "seed": seed})
+    # the switch from plaintext to ciphertext in mid-connection, at connection level: a pipelined client whose encrypted frames
+    # arrive in the same segment as the tail of the plaintext Encryption Response (pairs judged by Trace_Frames)
+    import frames_check
+    pfails, pobs, ptr = frames_check.run_pairs(frames_check.pipeline_schedules(tier == "thorough"), wd, hx, seed, name="pipeline")
+    for f in pfails:
+        o = pobs[f["line"] - 1]
+        rep.violation("%s C05_SwitchMidConnection(%s) [pipelined client, Encryption Response cut at %s]" % (prop, "+".join(sorted(f["clauses"])), o.get("sched", {}).get("pipeline", "?")),
+                      {"failing_clauses": sorted(f["clauses"]), "observed": {k: o[k] for k in o if k not in ("ref", "hist")}, "reference": o.get("ref"), "seed": seed})
+    notes.append("pipeline family: %d pairs judged by Trace_Frames" % len(pobs))
     rc = rep.finish()
     nontrivial = {json.dumps([o["ws"], o["sw"], [w["out"] for w in o["w"]], [(x["out"]) for x in o["r"]], i if o["src"] == "random" else 0])
                   for i, o in enumerate(observed) if any(w["out"] == "pending" for w in o["w"] + o["r"]) or len(o["w"]) > len(o["ws"])}
